@@ -17,6 +17,7 @@ import (
 	"encoding/binary"
 	"encoding/hex"
 	"fmt"
+	"os"
 	"sort"
 	"strings"
 	"sync"
@@ -109,6 +110,13 @@ func (c *T) Backend(name, got string, sel func(Features) string) {
 	}
 }
 
+// BackendFromFeatures is for units that cannot see the package-level dispatch variable (public-API
+// units outside the package): the value is derived from the same sources the variable is initialised
+// from, golang.org/x/sys/cpu and the build tag, as measured in this process.
+func (c *T) BackendFromFeatures(name string, sel func(Features) string) {
+	c.Backend(name+" (derived from x/sys/cpu bits and build tag)", sel(Measured()), sel)
+}
+
 // Switches declares (for the evidence) how many distinct values a dispatch variable takes over the six configurations.
 func distinctValues(m map[string]string) int {
 	s := map[string]bool{}
@@ -126,6 +134,7 @@ type D struct {
 	}
 	n     int
 	execs int
+	dump  *strings.Builder // diagnostic: VERIF_C14_DUMP=<path prefix> writes every part of every executed case
 }
 
 // Exec counts executions of the code under test inside the case (for the evaluations counter).
@@ -143,7 +152,13 @@ func (d *D) tag(label string, n int) {
 }
 
 // Bytes adds one output string.
-func (d *D) Bytes(label string, b []byte) { d.tag(label, len(b)); d.h.Write(b) }
+func (d *D) Bytes(label string, b []byte) {
+	d.tag(label, len(b))
+	d.h.Write(b)
+	if d.dump != nil {
+		fmt.Fprintf(d.dump, "  %s = %x\n", label, b)
+	}
+}
 
 // Bool adds one predicate result.
 func (d *D) Bool(label string, v bool) {
@@ -180,6 +195,10 @@ func (c *T) Case(id string, f func(d *D)) {
 		return
 	}
 	d := newD()
+	dumpTo := os.Getenv("VERIF_C14_DUMP")
+	if dumpTo != "" {
+		d.dump = &strings.Builder{}
+	}
 	var dig string
 	if p, what := verifmc.Try(func() { f(d) }); p {
 		dig = "panic:" + verifmc.PanicClass(what)
@@ -196,6 +215,12 @@ func (c *T) Case(id string, f func(d *D)) {
 	}
 	c.R.Distinct(id)
 	c.mu.Lock()
+	if d.dump != nil {
+		if f, err := os.OpenFile(dumpTo+"."+c.unit+"."+c.R.Config(), os.O_APPEND|os.O_CREATE|os.O_WRONLY, 0o644); err == nil {
+			fmt.Fprintf(f, "case %s -> %s\n%s", id, dig, d.dump.String())
+			f.Close()
+		}
+	}
 	if _, dup := c.x[id]; dup {
 		c.mu.Unlock()
 		c.R.Vacuous("harness error: duplicate case id " + id)
